@@ -1157,8 +1157,9 @@ class SQLTranslator(ASTTranslator):
         return node.value.monad
     def postIfExp(translator, node):
         test_monad, then_monad, else_monad = node.test.monad, node.body.monad, node.orelse.monad
+        test_aggregated = test_monad.aggregated
         if test_monad.type is not bool:
-            test_monad = test_monad.nonzero()
+            test_monad = test_monad.nonzero()  # a new monad: it does not carry the 'aggregated' flag
         result_type = coerce_types(then_monad.type, else_monad.type)
         test_sql, then_sql, else_sql = test_monad.getsql()[0], then_monad.getsql(), else_monad.getsql()
         if len(then_sql) == 1:
@@ -1170,7 +1171,7 @@ class SQLTranslator(ASTTranslator):
         expr = [ 'CASE', None, [ [ test_sql, then_sql ] ], else_sql ]
         result = ExprMonad.new(result_type, expr,
                                nullable=test_monad.nullable or then_monad.nullable or else_monad.nullable)
-        result.aggregated = test_monad.aggregated or then_monad.aggregated or else_monad.aggregated
+        result.aggregated = test_aggregated or then_monad.aggregated or else_monad.aggregated
         return result
     def postJoinedStr(translator, node):
         nullable = False
